@@ -16,6 +16,9 @@
                                mixed_bound_per_name, mixed_bound_whole_term_witness, mixed_bound_capture_witness
   Props/C05/Gensym.lean        gensym_source_form (over Gen/C05Gensym.lean, regenerated from interpreter.py every run),
                                supply_injective, supply_fresh_for_old, per_context_supply_witness
+  Props/C05/CallForm.lean      callPairs (the ONE Subs that x(*args, **kwargs) builds), call_simultaneous,
+                               sequential_eq_simultaneous (positional-then-keyword = one call only when no keyword key
+                               is a positional key / free in a positional value), sequential_call_witness (f(j, j=2))
   this file                    alpha_rename_denote: the six class statements as one
 
   All statements are for every term / environment / substitution / cache state (structural induction over
@@ -28,6 +31,7 @@ import FunsorVerif.Props.C05.Alpha
 import FunsorVerif.Props.C05.Subst
 import FunsorVerif.Props.C05.Mangle
 import FunsorVerif.Props.C05.Fusion
+import FunsorVerif.Props.C05.CallForm
 import FunsorVerif.Props.C05.Gensym
 namespace FV.Props.C05
 open FV FV.C05
